@@ -218,7 +218,9 @@ pub fn run(r: &mut Report) {
         let mut crng = rng.fork();
         let cfg = gen::WorldCfg { max_pkgs: if i % 3 == 0 { 8 } else { 5 }, max_customs: if i % 2 == 0 { 3 } else { 1 }, violations: 0, unknown_criteria: false };
         let w = gen::gen_world(&mut crng, &cfg);
+        let nf = r.failures.len();
         check_world(r, &mut d, &w, &format!("random#{i}"));
+        r.minimise_last(nf, &w, &mut |sr, cand| check_world(sr, &mut d, cand, "minimising"));
     }
     r.count_n("driver-requests", d.requests);
 }
